@@ -171,6 +171,27 @@ theorem dot1q_reparse_view (cx : Ctx) (q : Dot1Q) (h : q.WF) (region : Bytes)
   rcases dot1q_reparse cx q h region hl with ⟨out, hw, _, hp⟩
   exact ⟨out, _, _, hw, hp, rfl⟩
 
+/-! ### known finding KF-C04-L2-4: `append_padding_` is object state that is not on the wire -/
+
+/-- full statement: re-parsing what a Dot1Q wrote gives the same object back (up to the derived tag), so that serializing
+    the re-parsed packet pads exactly like the original did -/
+def dot1q_reparse_identity : Prop := ∀ q : Dot1Q, q.WF → Dot1Q.ofHeader q.headerBytes = q
+
+/-- witness: `Dot1Q(5, true)` comes back with padding switched off; its second serialization is 36 bytes shorter when
+    the payload does not absorb the padding (e.g. a PPPoE session payload, which is cut at `payload_length`) -/
+theorem dot1q_reparse_identity_fails : ¬ dot1q_reparse_identity := by
+  intro h
+  have := h (Dot1Q.create 5 true) (dot1q_create_wf 5 true)
+  have h2 : (Dot1Q.ofHeader (Dot1Q.create 5 true).headerBytes).appendPadding = false := rfl
+  rw [this] at h2
+  cases h2
+
+/-- proved part: everything that is on the wire comes back; objects that do not pad come back identically -/
+theorem dot1q_reparse_identity_partial (q : Dot1Q) (h : q.WF) (hp : q.appendPadding = false) :
+    Dot1Q.ofHeader q.headerBytes = q := by
+  rw [dot1q_ofHeader_headerBytes q h]
+  cases q; simp only at hp; subst hp; rfl
+
 /-- the trailer pads `header + inner` to exactly 50 bytes, or is empty -/
 theorem dot1q_trl_spec (q : Dot1Q) (n : Nat) :
     q.trl n = if q.appendPadding then 50 - (4 + n) else 0 := by
